@@ -821,7 +821,15 @@ func init() {
 		},
 		"(*strings.Builder).String": func(m *Machine, a []Val) Val { return m.sideStr[a[0].(Ptr).C] },
 		"(*strings.Builder).Len":    func(m *Machine, a []Val) Val { return m.strLen(m.sideStr[a[0].(Ptr).C]) },
-		"(*strings.Builder).Grow":   func(m *Machine, a []Val) Val { return nil },
+		"(*strings.Builder).Grow": func(m *Machine, a []Val) Val {
+			// the builder's buffer is real memory: account for it like a make([]byte, 0, n)
+			n := m.resize(a[1].(Int), 64, true)
+			m.noteAlloc(n)
+			if m.allocBudget != nil {
+				m.ex.Oblige(sle(n, *m.allocBudget), "alloc-not-backed-by-input (strings.Builder) in "+m.curFn())
+			}
+			return nil
+		},
 		"(*strings.Builder).Reset":  func(m *Machine, a []Val) Val { delete(m.sideStr, a[0].(Ptr).C); return nil },
 		"strconv.ParseBool": func(m *Machine, a []Val) Val {
 			s := a[0].(Str)
